@@ -39,3 +39,118 @@ From JB Require Import TreeWf2.
 Theorem C07_chains_with_keypaths_stay_wellformed : forall ops regs, Inv regs -> Inv (run2 regs ops).
 Proof. exact chain2_inv. Qed.
 Print Assumptions C07_chains_with_keypaths_stay_wellformed.
+
+(* ---- BEGIN byte chains: the library threads byte buffers, not trees.  ChainWalk.v runs the SAME operation language
+   (`op` of TreeWf.v, `op2` of TreeWf2.v, plus the JSONPath selections: `op3`) over BYTE registers: every step calls the
+   offset-faithful walker model `*_w` of the library function on the register bytes (concat_w, delete_by_name_w,
+   delete_by_index_w, array_insert_w, object_insert_w, object_delete_w, object_pick_w, strip_nulls_w, build_array_w,
+   build_object_w, get_by_index_w, get_by_name_w, array_distinct_w, array_intersection_w, array_except_w,
+   from_slice + write_to_vec, get_by_keypath_w, delete_by_keypath_w, object_keys_w, select_w in every mode,
+   get_by_path / get_by_path_first / get_by_path_array) with the caller's output buffer, and cuts what the call leaves
+   behind into documents the way a caller does (after the prefix; at the offsets for a selection, which can yield
+   several documents or none).  Err / None / Panic append nothing, as `step` does on trees.
+   `sizes_ok regs ops` is a hypothesis on the TREE run only: every register it ever produces is within the format's
+   bounds (wf_size: payloads < 2^28 bytes, counts < 2^29; top_ok: top-level count < 2^24, the is_jsonb sniffing bound).
+   A chain can grow documents past them (concat of huge arrays): those are the recorded payload / count findings. *)
+From JB Require Import Path PathSem DispatchProofs ChainWalk ChainWalkProofs.
+
+(* at every step of any chain, the byte registers are the encodings of the tree registers of the same chain *)
+Theorem C07_byte_chains_equal_tree_chains : forall ops regs_t, Inv regs_t -> sizes_ok regs_t ops ->
+  run_b (map enc regs_t) ops = map enc (run3 regs_t ops).
+Proof. exact run_b_enc. Qed.
+Print Assumptions C07_byte_chains_equal_tree_chains.
+
+(* the same for the register file after any prefix of the chain (every intermediate state) *)
+Theorem C07_byte_chains_equal_tree_chains_at_every_step : forall ops1 ops2 regs_t, Inv regs_t -> sizes_ok regs_t (ops1 ++ ops2) ->
+  run_b (map enc regs_t) ops1 = map enc (run3 regs_t ops1).
+Proof. exact run_b_enc_every_step. Qed.
+Print Assumptions C07_byte_chains_equal_tree_chains_at_every_step.
+
+(* in the vocabulary of TreeWf.v and TreeWf2.v: `run` / `run2` are `run3` on the embedded operations *)
+Theorem C07_byte_chains_equal_tree_chains_base : forall ops regs_t, Inv regs_t -> sizes_ok regs_t (map lift1 ops) ->
+  run_b (map enc regs_t) (map lift1 ops) = map enc (run regs_t ops).
+Proof. exact run_b_enc1. Qed.
+Print Assumptions C07_byte_chains_equal_tree_chains_base.
+Theorem C07_byte_chains_equal_tree_chains_keypaths : forall ops regs_t, Inv regs_t -> sizes_ok regs_t (map lift2 ops) ->
+  run_b (map enc regs_t) (map lift2 ops) = map enc (run2 regs_t ops).
+Proof. exact run_b_enc2. Qed.
+Print Assumptions C07_byte_chains_equal_tree_chains_keypaths.
+
+(* whatever the output buffer holds before each call (C17: the functions append): same registers *)
+Theorem C07_byte_chains_any_output_buffer : forall pre ops regs_t, Inv regs_t -> sizes_ok regs_t ops ->
+  run_bp pre (map enc regs_t) ops = map enc (run3 regs_t ops).
+Proof. exact run_bp_enc. Qed.
+Print Assumptions C07_byte_chains_any_output_buffer.
+(* and the buffer after one call of a chain is the prefix followed by the encoding of the tree result (editors) /
+   by the encodings of the selected documents delimited by the offsets (selections); an editor never panics and an
+   accessor neither errs nor panics *)
+Theorem C07_chain_calls_append : forall pre regs o, Inv regs -> Forall size_ok regs -> Forall size_ok (step_docs3 regs o) ->
+  match call_b pre (map enc regs) o with
+  | OutBuf (Ok buf) => exists d, step_docs3 regs o = [d] /\ buf = pre ++ enc d
+  | OutSel (Ok (buf, offs)) => exists tail, buf = pre ++ tail /\ cut buf (lenN pre) offs = map enc (step_docs3 regs o)
+  | OutBuf Panic | OutOwned (Err _) | OutOwned Panic => False
+  | _ => True
+  end.
+Proof. exact chain_call_appends. Qed.
+Print Assumptions C07_chain_calls_append.
+
+(* the tree invariant for the extended language *)
+Theorem C07_chains_with_selections_stay_wellformed : forall ops regs, Inv regs -> Inv (run3 regs ops).
+Proof. exact chain3_inv. Qed.
+Print Assumptions C07_chains_with_selections_stay_wellformed.
+
+(* every register of a byte chain is canonical JSONB: it is the encoding of a value whose keys are strictly sorted and
+   unique, strings UTF-8, numbers in range (wf_shape) and whose nested lengths are exact (enc is the layout with exact
+   lengths; wf_size: they fit their fields); it decodes; the decoded value re-encodes to the identical bytes (so nothing
+   trails the value); it is recognised as JSONB by its first byte *)
+Theorem C07_byte_chain_results_are_canonical : forall ops regs_t, Inv regs_t -> sizes_ok regs_t ops ->
+  Forall (fun b => exists v, b = enc v /\ wf_shape v = true /\ wf_size v = true /\ top_ok v /\
+                     parse_jsonb b = Ok (normalise v) /\ to_vec (normalise v) = b /\ is_jsonb b = true)
+         (run_b (map enc regs_t) ops).
+Proof. exact run_b_canonical. Qed.
+Print Assumptions C07_byte_chain_results_are_canonical.
+
+(* byte equality of canonical documents is identity of the decoded values *)
+Theorem C07_byte_equality_is_value_identity : forall a b, wfb a = true -> wfb b = true ->
+  (enc a = enc b <-> normalise a = normalise b).
+Proof. exact enc_identity. Qed.
+Print Assumptions C07_byte_equality_is_value_identity.
+
+(* non-vacuity, computed by the byte walkers: an 11-step chain through concat, strip_nulls, object_insert,
+   get_by_keypath, array_distinct, build_object (unsorted keys), select in mode All (two documents), get_by_path_first,
+   re-encode, delete_by_keypath, a predicate path (no document), each result feeding later steps *)
+Definition c07_regs : list value :=
+  [VObj [([97], VNum (NUInt 1)); ([98], VNull); ([99], VArr [VStr [120]; VStr [120]; VNull; VObj [([107], VNull)]])];
+   VArr [VStr [120]; VNum (NInt (-3)%Z); VStr [120]]].
+Definition c07_ops : list op3 :=
+  [lift1 (OConcat 0%nat 0%nat);                                       (* 2: object ++ itself *)
+   lift1 (OStripNulls 2%nat);                                         (* 3: b goes, the nested k goes *)
+   lift1 (OObjectInsert 3%nat [100] 1%nat true);                      (* 4: d := register 1 *)
+   lift2 (OGetByKeypath 4%nat [KName [99]]);                          (* 5: the array under c *)
+   lift1 (ODistinct 5%nat);                                           (* 6 *)
+   lift1 (OBuildObject [[122]; [109]] [6%nat; 4%nat]);                (* 7: {"m": reg 4, "z": reg 6} *)
+   OSelect 7%nat [PRoot; PDotWild] MAll;                              (* 8, 9: both members *)
+   OGetByPath 8%nat [PRoot; PDotField [100]; PIndices [AIndex (ILast 0)]] MFirst;   (* 10: last element of d *)
+   lift1 (OReencode 9%nat);                                           (* 11 *)
+   lift2 (ODeleteByKeypath 7%nat [KName [109]; KName [99]; KIndex (-1)%Z]);  (* 12 *)
+   OSelect 7%nat [PPredicate (EExists [PRoot; PDotField [122]])] MAll;  (* predicate: writes a boolean, no offset: no document *)
+   lift1 (OGetByIndex 6%nat 7);                                       (* absent: nothing *)
+   lift1 (OConcat 12%nat 10%nat)].                                    (* 13: object ++ string *)
+Example C07_byte_chain_example :
+  run_b (map enc c07_regs) c07_ops = map enc (run3 c07_regs c07_ops) /\
+  length (run_b (map enc c07_regs) c07_ops) = 14%nat /\
+  nth 10 (run_b (map enc c07_regs) c07_ops) [] = enc (VStr [120]) /\
+  nth 13 (run_b (map enc c07_regs) c07_ops) [] =
+    enc (VArr [VObj [([109], VObj [([97], VNum (NUInt 1)); ([99], VArr [VStr [120]; VStr [120]; VNull]);
+                                    ([100], VArr [VStr [120]; VNum (NInt (-3)%Z); VStr [120]])]);
+                     ([122], VArr [VStr [120]; VNull; VObj []])];
+               VStr [120]]) /\
+  (* a non-empty output buffer: the same registers *)
+  run_bp [1; 2; 3] (map enc c07_regs) c07_ops = run_b (map enc c07_regs) c07_ops.
+Proof. vm_compute. repeat split; reflexivity. Qed.
+Print Assumptions C07_byte_chain_example.
+(* the hypotheses of the theorems hold for this chain *)
+Example C07_byte_chain_example_hypotheses : Inv c07_regs /\ sizes_ok c07_regs c07_ops.
+Proof. split; [apply inv_dec|apply sizes_ok_dec]; vm_compute; reflexivity. Qed.
+Print Assumptions C07_byte_chain_example_hypotheses.
+(* ---- END byte chains *)
